@@ -607,8 +607,15 @@ func doSys(t *testing.T, run *emit.Run, p *pool, r *rand.Rand, script []string) 
 			if scripted && len(ids) > 0 {
 				id = ids[len(ids)-1]
 			}
-			opS = fmt.Sprintf("SAttestError %d %s", id, emit.ZI(ts))
 			before := s.rows()
+			if !scripted && r.Intn(2) == 0 { // prefer a logic call that demands MEV, or one that already carries fees
+				for _, b := range before {
+					if b.kind == "slc" && (b.mev || b.fees != nil) && r.Intn(2) == 0 {
+						id = b.id
+					}
+				}
+			}
+			opS = fmt.Sprintf("SAttestError %d %s", id, emit.ZI(ts))
 			var old *srow
 			for j := range before {
 				if before[j].id == id {
